@@ -128,10 +128,13 @@ struct ThreadArg {
 };
 static void *worker(void *a) {
     ThreadArg *t = (ThreadArg *)a;
+    apivm::Stats local;  // this thread's own statistics (never shared)
+    apivm::t_stats = &local;
     apivm::g_force_op = t->c->force;
     while (!t->go->load(std::memory_order_acquire)) sched_yield();  // released together once every thread exists
     for (int r = 0; r < 2; r++) t->digest[r] = apivm::run_program(t->c->prog.data(), t->c->prog.size());
-    t->calls = apivm::ST.calls;
+    t->calls = apivm::stats().calls;
+    apivm::t_stats = nullptr;
     return nullptr;
 }
 
@@ -177,13 +180,13 @@ static void check(const Case &c) {
     // classification from the sequential run (main thread's statistics)
     uint64_t calls = 0;
     for (int f = 0; f < apivm::NFN; f++) {
-        if (!apivm::ST.fn_name[f]) continue;
+        if (!apivm::stats().fn_name[f]) continue;
         for (int r = 0; r < 17; r++) {
-            uint64_t d = apivm::ST.by_fn_rc[f][r] - fnSeen[f][r];
+            uint64_t d = apivm::stats().by_fn_rc[f][r] - fnSeen[f][r];
             if (!d) continue;
-            fnSeen[f][r] = apivm::ST.by_fn_rc[f][r];
+            fnSeen[f][r] = apivm::stats().by_fn_rc[f][r];
             calls += d;
-            if (!fnCounter[f]) fnCounter[f] = new vh::Counter(strdup((std::string("fn.") + apivm::ST.fn_name[f]).c_str()));
+            if (!fnCounter[f]) fnCounter[f] = new vh::Counter(strdup((std::string("fn.") + apivm::stats().fn_name[f]).c_str()));
             fnCounter[f]->n += d - 1;
             vh::count_hit(*fnCounter[f]);
         }
